@@ -66,8 +66,8 @@ prop("C03",
 import itertools
 
 
-def _bc(n, panics=(), extend=False):
-    return {"n": n, "panics": list(panics), "extend": extend}
+def _bc(n, panics=(), extend=False, bomb=False):
+    return {"n": n, "panics": list(panics), "extend": extend, "bomb": bomb}
 
 
 def _pool(history, pb=None):
@@ -96,6 +96,11 @@ def pool_scenarios(tier):
     out.append(_pool([_bc(1, extend=True), _bc(2, (1,), extend=True)]))
     out.append(_pool([_bc(2, extend=True)]))
     out.append(_pool([_bc(3)], pb=2))
+    # the caller's own call panics with a payload whose destructor panics
+    out.append(_pool([_bc(1, (0,), bomb=True), _bc(1)]))
+    out.append(_pool([_bc(2, (0,), bomb=True)]))
+    out.append(_pool([_bc(2, (0, 2), bomb=True), _bc(1)]))
+    out.append(_pool([_bc(1, (0,), extend=True, bomb=True)]))
     if tier == "thorough":
         for h in itertools.product((0, 1, 2), repeat=3):
             out.append(_pool([_bc(n) for n in h], pb=None if sum(h) <= 4 else 3))
@@ -134,8 +139,10 @@ def _loop(case, pb=None):
     return {"kind": "loop", "case": case, "pb": pb}
 
 
-# (entry, ishape, oshape): bench ZST path, values slots path, refs inputs path, refs ZST path
-LOOM_SHAPES = [(0, 0, 0), (2, 3, 3), (4, 3, 2), (4, 1, 1)]
+# (entry, ishape, oshape) covering the three loop paths and every place a destructor can run:
+# ZST path (no drops / zero-sized output with Drop / both zero-sized with Drop / ZST Drop input only),
+# slots path (sized Drop both / sized input with zero-sized Drop output), inputs-only path (with / without input Drop)
+LOOM_SHAPES = [(0, 0, 0), (0, 0, 1), (4, 1, 1), (4, 1, 0), (2, 3, 3), (4, 2, 1), (4, 3, 2), (4, 2, 0)]
 
 
 def loop_scenarios(tier, panics=True):
